@@ -22,7 +22,8 @@ Inductive obs :=
 | BReserved (t : tid)                  (* `reserve`: the id set aside for the table the sub-pipeline becomes *)
 | BInput (node : N) (cols : list (relcol * cid))   (* `instance`: the columns of the TableRef created for PL node `node` *)
 | BRedirect (pairs : list (cid * cid)) (* `redirect`: the HashMap applied by redirect_mappings, as sorted pairs *)
-| BDepth (n : N).                      (* number of suspended pipelines + 1 (relation_begin nesting) *)
+| BDepth (n : N)                       (* number of suspended pipelines + 1 (relation_begin nesting) *)
+| BFrame (f : list (relcol * cid)).    (* `relation_end`: the columns and the closing Select push_select returned *)
 
 Fixpoint last_opt {A} (l : list A) : option A :=
   match l with [] => None | [x] => Some x | _ :: l' => last_opt l' end.
@@ -76,6 +77,7 @@ Definition check_obs (s' : lstate) (o : op) (b : obs) : bool :=
       | None => false
       end
   | BDepth n => N.eqb (N.of_nat (length (frames s'))) n
+  | BFrame f => list_eqb (pair_eqb rc_eqb N.eqb) (op_frame o) f
   end.
 
 (* inl = final state; inr k = operation number k (from 0) is not a step of the machine, or the state after it does not
